@@ -172,8 +172,16 @@ func (c *ChangesCursor) Next() error {
 			c.eof = true
 			return nil
 		}
+		if err != nil {
+			return fmt.Errorf("diff: %w", err)
+		}
 		if de.NewValue != nil {
-			c.currentRow = de.NewValue.(*v1proto.Row)
+			row, _ := de.NewValue.(*v1proto.Row)
+			if row == nil || row.Deleted {
+				// deleted in the 'to' version; shows up when from and to are swapped
+				continue
+			}
+			c.currentRow = row
 			c.currentKey = de.Key.(*s3db.Key)
 			return nil
 		}
